@@ -893,6 +893,11 @@ impl MerkleTree {
                     instructions.push(instruction);
                 }
                 Either::Right(node) => {
+                    if !instructions.is_empty() {
+                        // A root further left is not loaded yet, so the bytes that precede
+                        // this root are not known: nothing can be decided in this pass.
+                        continue;
+                    }
                     if bytes == node.length {
                         return Ok(Either::Right(root));
                     }
